@@ -10,7 +10,7 @@ in the same content (sort + inverse sort, keep-all filters, subsample at full
 depth, transpose twice, copy, rename + rename back, identity transform, pa on
 0/1 data).  Contract:
 
-* equal content  =>  ``T == U``, ``U == T``, not ``T != U``,
+* a copy equals its original; equal content  =>  ``T == U``, ``U == T``, not ``T != U``,
   ``descriptive_equality`` says equal, ``T == T`` - after every interleaving of
   the read accessors nnz / data / iter / == on either table, of length <= 2
   (quick) / <= 3 (thorough); accessors leave the content unchanged;
@@ -276,7 +276,7 @@ def verdicts(tabs, i, j):
             'descriptive_equality': T.descriptive_equality(U) == 'Tables appear equal'}
 
 
-def walk_equal(tabs, contents, depth, prefix, problems, want_equal=True, stop=None):
+def walk_equal(tabs, contents, depth, prefix, problems, want_equal=True):
     """DFS over accessor/comparison interleavings; tabs are never modified (clones are)."""
     k = len(tabs)
     # final comparisons on clones of the state reached by `prefix`
@@ -284,14 +284,14 @@ def walk_equal(tabs, contents, depth, prefix, problems, want_equal=True, stop=No
         for j in range(k):
             cl = [ou.clone(t) for t in tabs]
             if i == j:
-                if want_equal is not None and not (cl[i] == cl[i]):
+                if not (cl[i] == cl[i]):
                     problems.append(('reflexive', True, False, prefix, None))
                 continue
-            want = want_equal if not isinstance(want_equal, dict) else want_equal[frozenset((i, j))]
-            for name, got in verdicts(cl, i, j).items():
-                if got != want:
-                    clause = ('equal-content-compares-equal' if want else 'different-content-compares-unequal')
-                    problems.append((clause + '/' + name, want, got, prefix, (i, j)))
+            want = want_equal
+            got = verdicts(cl, i, j)
+            if any(g != want for g in got.values()):
+                clause = ('equal-content-compares-equal' if want else 'different-content-compares-unequal')
+                problems.append((clause, {k: want for k in got}, got, prefix, (i, j)))
     if depth == 0:
         return
     for s in symbols(k):
@@ -346,7 +346,17 @@ def run_pair_case(case):
 
     def rerun(tabs, depth=depth):
         probs = []
-        walk_equal(tabs, [c, c], depth, [], probs, True)
+        for k, X in enumerate(tabs):
+            # a copy equals its original (whatever the original's representation), both ways, and stays equal
+            a = ou.clone(X)
+            try:
+                b = a.copy()
+                got = [bool(b == a), bool(a == b), not bool(a != b), bool(ou.clone(X) == b)]
+            except Exception as e:
+                got = ou.describe_exc(e)
+            if got != [True] * 4:
+                probs.append(('copy-equals-original', [True] * 4, got, [], (k, 'copy')))
+        walk_equal(tabs, [ou.Content.of(rt.view(t)) for t in tabs], depth, [], probs, True)
         return probs
     probs = _dedupe(rerun([T, U]))
     fails = []
@@ -475,7 +485,10 @@ def run_differ_case(case):
 
     def rerun(tabs, depth=depth):
         probs = []
-        walk_equal(tabs, [c1, c2], depth, [], probs, False)
+        vs = [rt.view(t) for t in tabs]
+        if not ou.content_diff(vs[0], ou.Content.of(vs[1])) and vs[0].type == vs[1].type:
+            return probs        # a classification variant erased the difference: premise not met
+        walk_equal(tabs, [ou.Content.of(v) for v in vs], depth, [], probs, False)
         return probs
     probs = _dedupe(rerun([T, U]))
     fails = []
